@@ -67,6 +67,9 @@ P = {
  "C14": ("key provenance (value flow from the extractor into keyed accesses), backward slice of the admission comparison by normal-form atoms, effect audit of the bucket code, edge guards / call-graph who-may-call in the TTL map",
          "Non-interference by construction: TTL map and connection-counter keys are the extractor's token unchanged; the admission comparison mentions only this source's count, the maximum and the amount; bucket code touches no package-level or limiter state; eviction is requested only by the insertion of a new key, at capacity, for one entry, expired entries first and then the heap minimum ordered strictly by expiry; Get deletes only its own expired entry and its own heap item, PriorityQueue.Remove is unconditional. Level 'other'.",
          "NOT decided: heap correctness (container/heap); the equality 'projection = solo run' is the paper consequence of the rules. Trusted: go/ssa, analyser.", "3/C14"),
+ "C20": ("event counting over all CFG paths per middleware, argument provenance of what is handed down, delegation shape of the writer wrappers, decision tables of the intervention handlers",
+         "Per-middleware local contract (compositional): exactly one of {wrapped handler invoked, own response produced} on every path to every return of all eight ServeHTTPs (buffer: exactly one emission); the writer handed down is the incoming one or an approved wrapper around it, the request the incoming one or a copy differing only in URL (or the buffer's copy); ProxyWriter / the buffer's recorder forward Flush/Hijack/CloseNotify/Write/WriteHeader/Header to the wrapped writer with no extra condition and mark hijacked only on success; intervention handlers produce one complete response with 429/429/413/503 and delegate other errors. Level 'other'.",
+         "NOT decided: byte equality of relayed bodies, HTTP/2 push, ResponseController unwrapping. Trusted: go/ssa, analyser.", "3/C20"),
 }
 
 NA = {}
